@@ -17,13 +17,24 @@ pub fn oracle(o: &Outcome, s: &Scen) -> Option<(String, serde_json::Value)> {
 
 pub fn run(cfg: &Cfg, rep: &mut Report) {
   let n = cfg.n(16_000, 2_500_000);
+  if cfg.mode.starts_with("fam") {
+    let fam: usize = cfg.mode[3..].parse().unwrap();
+    for seed in 0..20u64 {
+      let mut r = Rng::new(seed);
+      let s = random_scen(&mut r, fam);
+      let t0 = std::time::Instant::now();
+      let o = run_scen(&s, seed, crate::conc::Strategy::Uniform);
+      println!("fam {} seed {} points {} switches {} timed_out {} livelock {} deadlock {:?} {:?} in {:?}", fam, seed, o.baton.points, o.baton.switches, o.baton.timed_out, o.baton.livelock, o.baton.deadlock.is_some(), s.threads, t0.elapsed());
+    }
+    return;
+  }
   if cfg.mode == "dbg" {
     // the thorough-tier deadlock scenario, many seeds
     use crate::ast::*;
     let table: Vec<Chain> = (0..2).map(|i| Chain::new(Src::Hot(i + 1), vec![Op::Spy(20 + i as u32)])).collect();
     let chain = Chain::new(Src::Hot(0), vec![Op::Map(MapF::Add(-1001)), Op::MergeAll(2, table)]);
     let s = Scen { name: "merge_all_threads", kind: Kind::Pipe(chain), n_hot: 3, initial_subs: 1,
-      threads: vec![vec![TOp::Next(0), TOp::Next(0), TOp::Complete(0)], vec![TOp::Next(1), TOp::Complete(1)], vec![TOp::Next(2), TOp::Unsub(0)]], workers: 0 };
+      threads: vec![vec![TOp::Next(0), TOp::Next(0), TOp::Complete(0)], vec![TOp::Next(1), TOp::Complete(1)], vec![TOp::Next(2), TOp::Unsub(0)]], workers: 0, worker_spins: 0 };
     for seed in 0..12000u64 {
       let strat = match seed % 4 { 0 => crate::conc::Strategy::Pct(1), 1 => crate::conc::Strategy::Pct(2), 2 => crate::conc::Strategy::Pct(3), _ => crate::conc::Strategy::Uniform };
       let o = run_scen(&s, seed, strat);
@@ -38,7 +49,7 @@ pub fn run(cfg: &Cfg, rep: &mut Report) {
   // systematic part: for a few scenarios of every family, ALL schedules with at
   // most `bound` preemptions (forced switches are free)
   if cfg.mode != "dbg" {
-    let per_family = cfg.n(3, 8);
+    let per_family = cfg.n(2, 8);
     let bound = cfg.n(1, 2);
     let mut idx = 0usize;
     for fam in 0..FAMILIES {
